@@ -222,6 +222,9 @@ type e2eNode struct {
 	val    *dbl.Validator
 	sent   *sentLog
 
+	// configurer, if set, is registered for the voucher type on every manager lifetime
+	configurer datatransfer.TransportConfigurer
+
 	mu     sync.Mutex
 	events map[datatransfer.ChannelID][]e2eEvent
 	cond   *sync.Cond
@@ -274,6 +277,11 @@ func (n *e2eNode) start(t fataler, ctx context.Context) {
 	if err := mgr.RegisterVoucherType(e2eType, n.val); err != nil {
 		t.Fatalf("HARNESS register: %v", err)
 	}
+	if n.configurer != nil {
+		if err := mgr.RegisterTransportConfigurer(e2eType, n.configurer); err != nil {
+			t.Fatalf("HARNESS register configurer: %v", err)
+		}
+	}
 	ready := make(chan error, 1)
 	mgr.OnReady(func(err error) { ready <- err })
 	mgr.SubscribeToEvents(n.onEvent)
@@ -288,6 +296,12 @@ func (n *e2eNode) start(t fataler, ctx context.Context) {
 	case <-time.After(watchdog):
 		t.Fatalf("HARNESS manager not ready")
 	}
+}
+
+// restartProcess stops the manager and graphsync and starts new ones on the same stores.
+func (n *e2eNode) restartProcess(t fataler, ctx context.Context) {
+	n.stop()
+	n.start(t, ctx)
 }
 
 func (n *e2eNode) stop() {
